@@ -331,6 +331,11 @@ def trailers_case(seed):
     worker = rng.choice(["asyncio", "trio"])
     trailers = rng.choice([[(b"x-t", b"1")], [(b"x-checksum", b"abc"), (b"x-t", b"2")]])
     chunks = [size] if size < 50000 else [size // 2, size - size // 2]
+    streamed = rng.random() < 0.4
+    if streamed:
+        # a response streamed in small pieces with pauses between them: each piece has gone out before the next is sent
+        chunks = [rng.choice([1, 1000, 5000]) for _ in range(rng.choice([2, 3]))]
+        size = sum(chunks)
     d = S.Driver(seed=seed, policy=rng.choice(["fifo", "random"]))
     cfg = R.make_config(())
     cfg._log = R.RecLog([])
@@ -338,6 +343,8 @@ def trailers_case(seed):
     steps = [("recv_all",), ("send", {"type": "http.response.start", "status": 200, "headers": [(b"x-a", b"b")], "trailers": True})]
     for i, n in enumerate(chunks):
         steps.append(("send", {"type": "http.response.body", "body": b"y" * n, "more_body": i < len(chunks) - 1}))
+        if streamed and i < len(chunks) - 1:
+            steps.append(("sleep", 0.2))          # (the trailers follow the last piece at once)
     steps.append(("send", {"type": "http.response.trailers", "headers": trailers, "more_trailers": False}))
     rig = S.ProtoRig(S.scripted_app([steps], recs, d), cfg, d, alpn="h2", ssl=True, worker=worker)
     c = h2.connection.H2Connection(h2.config.H2Configuration(client_side=True, header_encoding=None))
